@@ -59,9 +59,9 @@ def rule_r2_r3(ctx, rep):
     prog = ctx.prog
     w = ctx.world
     mi = prog.module(EVAL)
-    table = mi.consts.get("rules")
+    table = _as_dict_literal(prog, mi, mi.consts.get("rules"))
     if not isinstance(table, ast.Dict):
-        raise AnalysisError("anchor vanished: evaluate.rules is not a dict literal")
+        raise AnalysisError("anchor vanished: evaluate.rules is not a dict literal (nor dict(<literal sequence of pairs>))")
     T = ctx.tables
     ci = prog.cls(EWARN)
     members = set(prog.enum_members(ci))
@@ -99,7 +99,7 @@ def rule_r2_r3(ctx, rep):
         for n in ast.walk(fi.node):
             if isinstance(n, ast.Return) and isinstance(n.value, ast.Call):
                 for tg in w.resolve_call(ft, n.value):
-                    if tg.func is not None and tg.func.module.name == EVAL:
+                    if tg.func is not None and tg.func.qname.startswith(EVAL + "."):
                         todo.append(tg.func)
         # result variables
         rvars = set()
@@ -153,7 +153,7 @@ def rule_r2_r3(ctx, rep):
         if wl is not None and wl["cur"] and len(wl["pops"]) == 1 and len(wl["pushes"]) == 1:
             rep.count("evaluation walk loops")
             lp, cur, (pop, kind), p = wl["loop"], wl["cur"], wl["pops"][0], wl["pushes"][0]
-            seq = p.value if isinstance(p, ast.AugAssign) else (p.args[0] if p.args and p.func.attr == "extend" else None)
+            seq = p.value if isinstance(p, ast.AugAssign) else (p.args[0] if p.args and p.func.attr in ("extend", "extendleft") else None)
             rev = False
             if isinstance(seq, ast.Call) and isinstance(seq.func, ast.Name) and seq.func.id == "reversed" and len(seq.args) == 1:
                 rev, seq = True, seq.args[0]
@@ -195,9 +195,17 @@ def rule_r2_r3(ctx, rep):
     return evaluators
 
 
+from ..astutil import as_dict_literal as _as_dict_literal  # noqa: E402
+
+
 def _check_tuple(ctx, rep, fi, ft, x, members, emitted):
     prog = ctx.prog
     rep.count("warning tuples")
+    if isinstance(x, ast.Name):
+        # a local bound once to the triple
+        defs = [n.value for n in ast.walk(fi.node) if isinstance(n, ast.Assign) and len(n.targets) == 1 and isinstance(n.targets[0], ast.Name) and n.targets[0].id == x.id]
+        if len(defs) == 1 and isinstance(defs[0], ast.Tuple):
+            x = defs[0]
     ok = isinstance(x, ast.Tuple) and len(x.elts) == 3
     why = "a warning is not a (code, message, node) triple"
     if ok:
@@ -229,12 +237,17 @@ def _check_tuple(ctx, rep, fi, ft, x, members, emitted):
         rep.add("R2", fi.qname, x, why, fi.loc(x))
 
 
+def eval_funcs(ctx):
+    """the functions of the evaluation module, including those that were moved to another file (filed under their baseline
+    name by the normaliser) and helpers of that module"""
+    return [f for q, f in sorted(ctx.prog.funcs.items()) if q.startswith(EVAL + ".")]
+
+
 def rule_r4(ctx, rep):
     prog = ctx.prog
     mi = prog.module(EVAL)
-    from ..model import iter_funcs_in_module
     found = set()
-    for fi in iter_funcs_in_module(mi):
+    for fi in eval_funcs(ctx):
         for n in ast.walk(fi.node):
             if isinstance(n, ast.Tuple) and n.elts:
                 code = prog.const(mi, n.elts[0])
@@ -331,8 +344,7 @@ def rule_r5_r6(ctx, rep):
             rep.add("R5", gt.qname, f"collection of '{name}' text", f"the text of '{name}' elements is not collected from all descendants of the text element: "
                     f"text inside section / list items is not counted, so a long abstract or a filled description is reported as missing or too short", gt.loc())
     # R6 latched flags
-    from ..model import iter_funcs_in_module
-    for fi in iter_funcs_in_module(mi):
+    for fi in eval_funcs(ctx):
         flags = {}
         for st_ in fi.node.body:
             if isinstance(st_, ast.Assign) and len(st_.targets) == 1 and isinstance(st_.targets[0], ast.Name) and isinstance(st_.value, ast.Constant) and st_.value.value is False:
@@ -353,7 +365,6 @@ def rule_r5_r6(ctx, rep):
                                 rep.add("R6", fi.qname, n, f"the 'found' flag `{t.id}` can be reset inside the scan loop (it is assigned `{norm(n.value)}`, not the "
                                         f"constant True): whether the recommendation fires depends on the order of the children", fi.loc(n))
     rep.floor("text collections over descendants", 2)
-    rep.floor("flag assignments inside scan loops", 1)
 
 
 def run(ctx, rep):
@@ -362,7 +373,7 @@ def run(ctx, rep):
         "must hold a non-null fact); keys of the table fold to known element names; every value appended to a warning list is a "
         "(declared EvaluationWarning member, str, Node) triple; the walk visits all children unconditionally; every declared "
         "warning is emitted somewhere; the three threshold guards are evaluated at t-1, t, t+1")
-    rep.rules_run = ["R1", "R2", "R3", "R4", "R5", "R6", "R7", "R8"]
+    rep.rules_run = ["R1", "R2", "R3", "R4", "R5", "R6", "R7", "R8", "R9"]
     rep.assumptions += ["NOT decided: that the emitted set equals the documented recommendations on every tree (behavioural)",
                         "word counting relies on normalize()/str.split (library semantics, C20)"]
     only = getattr(rep, "only", None)
@@ -374,13 +385,42 @@ def run(ctx, rep):
         rule_r4(ctx, rep)
     if only in (None, "R5", "R6"):
         rule_r5_r6(ctx, rep)
+    if only in (None, "R9"):
+        # `if some_node:` means "the element is there" only while Node has plain object truthiness
+        from ..types import T_NODE as _TN, T_OPT as _TO
+        nmci = ctx.world.nm.ci
+        dund = [m for m in ("__bool__", "__len__") if m in nmci.methods]
+        rep.count("truth tests of nodes in evaluators", 0)
+        for f_ in eval_funcs(ctx):
+            ft_ = ctx.world.types(f_)
+            tests = []
+            for n_ in ast.walk(f_.node):
+                if isinstance(n_, (ast.If, ast.While, ast.IfExp)):
+                    tests.append(n_.test)
+                elif isinstance(n_, ast.BoolOp):
+                    tests.extend(n_.values[:-1])
+                elif isinstance(n_, ast.UnaryOp) and isinstance(n_.op, ast.Not):
+                    tests.append(n_.operand)
+                elif isinstance(n_, ast.comprehension):
+                    tests.extend(n_.ifs)
+            for t_ in tests:
+                parts_ = t_.values if isinstance(t_, ast.BoolOp) else [t_]
+                for x_ in parts_:
+                    if isinstance(x_, ast.UnaryOp) and isinstance(x_.op, ast.Not):
+                        x_ = x_.operand
+                    if isinstance(x_, (ast.Name, ast.Attribute)) and ft_.type_of(x_) in (_TN, _TO):
+                        rep.count("truth tests of nodes in evaluators")
+                        rep.oblige(("R9", f_.qname, norm(x_), getattr(x_, "lineno", 0)), not dund)
+                        if dund:
+                            rep.add("R9", f_.qname, x_, f"`{norm(x_)}` is truth-tested to mean 'the element is present', but Node defines {', '.join(dund)}: a node "
+                                    f"without children now counts as absent, so recommendations are reported for elements that are there", f_.loc(x_))
     if only in (None, "R8"):
         # the recommendations are about an element's own children: a deep (descendant) query in an evaluator finds the named
         # element anywhere below -- e.g. an abstract under project silences "dataset abstract missing".  Deep queries are
         # for collecting text (get_text_content, R5) only.
         from ..valslice import reachable as _reach
         mi_ = ctx.prog.module(EVAL)
-        from ..model import iter_funcs_in_module as _iter
+        _iter = lambda _m: eval_funcs(ctx)
         for f_ in _iter(mi_):
             if f_.name == "get_text_content":
                 continue
